@@ -17,7 +17,7 @@ from .. import core
 from ..l3 import L3Session, show_real
 from .c03 import value_for
 
-UNDECODABLE = ["Auto Down", "Auto Up", "", "abc", "--", "1.5.2", "12a", "0x1F", " ", "None", "1,5", "+-1", "@UNDEFINED", "=", "é"]  # texts Python accepts through exotic syntax (e.g. full-width digits) are C04's informational stream
+UNDECODABLE = ["Auto Down", "Auto Up", "", "abc", "--", "1.5.2", "12a", "0x1F", " ", "None", "1,5", "+-1", "@UNDEFINED", "=", "é", "inf", "-inf", "Infinity", "nan", "1e999", "-1e999", "1e5", "９", "1_0", "0b1"]  # texts Python accepts through exotic syntax (e.g. full-width digits) are C04's informational stream
 
 
 def type_ok(conv, v):
